@@ -416,8 +416,13 @@ macro_rules! submit_threaded_operation {
             return result_recv;
         }
 
+        // resolves the operation with a client-closed error should it be dropped uncompleted
+        let (completion_guard, _) = CompletionGuard::new(Box::new(move |res| {
+            result_send.apply_if_unset(res);
+        }));
+
         let response_handler = Box::new(move |res| {
-            result_send.apply(res);
+            completion_guard.complete(res);
             Ok(())
         });
 
@@ -428,7 +433,7 @@ macro_rules! submit_threaded_operation {
 
         let submit_result = $self.operation_sender.send(OperationOptions::$operation_type(boxed_packet, internal_options));
         if let Err(submit_error) = submit_result {
-            late_sender.apply(Err(GneissError::new_operation_channel_failure(submit_error)));
+            late_sender.apply_if_unset(Err(GneissError::new_operation_channel_failure(submit_error)));
         }
 
         result_recv
@@ -440,8 +445,13 @@ macro_rules! submit_threaded_operation_with_callback {
         let boxed_packet = Box::new(MqttPacket::$packet_type($packet_value));
         validate_packet_outbound(&boxed_packet)?;
 
-        let response_handler = Box::new(move |res| {
+        // invokes the callback with a client-closed error should the operation be dropped uncompleted
+        let (completion_guard, completion_armed) = CompletionGuard::new(Box::new(move |res| {
             $completion_callback(res);
+        }));
+
+        let response_handler = Box::new(move |res| {
+            completion_guard.complete(res);
             Ok(())
         });
 
@@ -452,6 +462,8 @@ macro_rules! submit_threaded_operation_with_callback {
 
         let submit_result = $self.operation_sender.send(OperationOptions::$operation_type(boxed_packet, internal_options));
         if let Err(submit_error) = submit_result {
+            // the failure is reported through the return value, not through the callback as well
+            completion_armed.store(false, std::sync::atomic::Ordering::SeqCst);
             return Err(GneissError::new_operation_channel_failure(submit_error));
         }
 
